@@ -79,6 +79,11 @@ TStep ==
                        <<"snap_target_matches_protocol", ClassOk(e.t)>>,
                        <<"snap_staging_matches_protocol", e.s = (staging # Absent)>>,
                        <<"snap_mtime_only_with_new", e.mc = (tm # tm0)>> >>)                        \* C11
+       [] e.e = "rejected" ->
+            \* the write just ended by raising because the value is outside the store's domain (it cannot be
+            \* serialised): that value can never be in place, so the target and its modified time are as before
+            /\ UNCHANGED <<fvars, tm0, curw>>
+            /\ Note(<< <<"rejected_value_leaves_target_untouched", e.t \in {"old", "same"} /\ ~e.mc>> >>)      \* C11
        [] e.e = "read" ->
             \* read() returned a value the harness classified by equality and type against what was written
             /\ UNCHANGED <<fvars, tm0, curw>>
